@@ -131,12 +131,15 @@ let run () =
          so the address-to-block attribution of the harness is ambiguous there and the address-based predicates are not evaluated; contents, bounds of
          BytesMut windows, frees, leaks, use after free and panics are *)
       let arena = (tag = "E1A") in
-      let reported = ref false in
+      (* one line per history and PROPERTY (the first three characters of the kind: c01, c04, ..., mod): every property's check sees the first
+         mismatch of its own kinds, also when a mismatch of another property's kind comes earlier in the same history *)
+      let reported : (string, unit) Hashtbl.t = Hashtbl.create 4 in
       let report kind detail =
         if arena && List.mem kind ["c07-address"; "c08-is-unique"; "c08-try-into-mut"; "c08-sole-owner-reclaim"; "c04-overlap"; "c03-freed-while-in-use"; "c13-state-changed"; "model-state"; "model-events"; "model-return"] then () else begin
         incr bad;
         let c = try Hashtbl.find perkind kind with Not_found -> 0 in Hashtbl.replace perkind kind (c + 1);
-        if not !reported && c < 4 then (reported := true; Printf.printf "MISMATCH %s %s :: %s\n" kind detail line) end in
+        let pre = String.sub kind 0 (min 3 (String.length kind)) in
+        if not (Hashtbl.mem reported pre) && c < 4 then (Hashtbl.replace reported pre (); Printf.printf "MISMATCH %s %s :: %s\n" kind detail line) end in
       let nontrivial = ref false in
       Hashtbl.reset memo1; Hashtbl.reset memo2; Hashtbl.reset memo3;
       (try
